@@ -133,6 +133,22 @@ def run(ctx):
         if x.n_qubits <= 6:
             for lid in {rng.randrange(nl), -1, 0}:
                 check_change(ctx, x, lid, rng)
+    # hash-equal but different individuals viewed one after the other (EVQEIndividual.__eq__ is hash equality and hash(-1.0) == hash(-2.0)):
+    # anything memoised per individual must not leak from one to the other
+    for _ in range(ctx.n(6, 60)):
+        if ctx.out_of_time():
+            break
+        base = G.gen_individual(rng, max_qubits=4, max_layers=4, wild=False)
+        if not base.parameter_values:
+            continue
+        k = rng.randrange(len(base.parameter_values))
+        va = tuple(-1.0 if (i == k or rng.random() < 0.3) else float(v) for i, v in enumerate(base.parameter_values))
+        vb = tuple(-2.0 if v == -1.0 else v for v in va)
+        a, b = EVQEIndividual(base.n_qubits, base.layers, va), EVQEIndividual(base.n_qubits, base.layers, vb)
+        nl = len(base.layers)
+        for S in ([], list(range(nl)), [rng.randrange(nl)], sorted(rng.sample(range(nl), rng.randint(0, nl)))):
+            check_views(ctx, a, S, rng, "hash-collision")
+            check_views(ctx, b, S, rng, "hash-collision")
     # deep individuals: layer ids cross the decimal boundaries 100 and (thorough) 1000 of the zero-padded names
     deep = [(rng.randint(101, 130), rng.randint(1, 2))] + ([(rng.randint(1001, 1030), 1), (rng.randint(101, 300), 2)] if ctx.thorough() else [])
     for nl, nq in deep:
